@@ -397,6 +397,8 @@ Apply(h, o) ==
                          ELSE {Res(Ok(V("str", k)), h) : k \in KeysOf(h[o.r], o.v)}
     \* String() / FormatString(n): text only, the receiver is unchanged (C09); the text itself is C01/C02/C16's business
     [] o.op = "Text" -> {Res(Ok(V("none", 0)), h)}
+    \* GetTF(path): the value step-by-step navigation reaches, panic when the path does not resolve (C10)
+    [] o.op = "GetTF" -> IF Resolve(h, o.r, o.vs) = Undef THEN {Res(Panic, h)} ELSE {Res(Ok(Resolve(h, o.r, o.vs)), h)}
     [] o.op = "NativeCheck" -> {Res(Ok(Bool(TRUE)), h)} \* Native*(r) holds no container at any depth and equals the content
     [] o.op \in {"Clone", "CloneO"} ->
          LET s == CopyVal(h, Ref(o.r), CloneF) IN {Res(Ok(s[2]), s[1])}
